@@ -128,6 +128,22 @@ fn slot_sets(quick: bool) -> Vec<Vec<Slot>> {
             }
         }
     }
+    // the same sets with names of different lengths (byte order and length-first order disagree)
+    const MIXED: [&str; 5] = ["B", "AB", "A", "PREIMAGE", "PK"];
+    let renamed: Vec<Vec<Slot>> = out
+        .iter()
+        .enumerate()
+        .filter(|(i, set)| set.iter().map(|s| &s.name).collect::<std::collections::BTreeSet<_>>().len() >= 2 && (!quick || i % 3 == 0))
+        .map(|(_, set)| {
+            set.iter()
+                .map(|s| {
+                    let k: usize = s.name[1..].parse().unwrap_or(0);
+                    Slot { name: MIXED[k % MIXED.len()].to_string(), ty: s.ty.clone(), pos: s.pos }
+                })
+                .collect()
+        })
+        .collect();
+    out.extend(renamed);
     out
 }
 
@@ -147,6 +163,33 @@ pub fn run(rep: &Report) -> i32 {
     par_for(&sets, rep, 8, |i, slots| {
         drive::DUMMY.with(|env| check_program(rep, slots, i, env));
     });
+    // one name at two nominally different types of equal layout: no single argument type fits both occurrences, so the
+    // template must be rejected (parameters() could not report the occurrences with their types)
+    {
+        let mut cases = vec![];
+        for t in pool().iter().chain(wide_pool().iter()) {
+            if let Some(o) = same_layout_other_type(t) {
+                for (a, b) in [(0u8, 0u8), (0, 1), (1, 0), (1, 1), (2, 0)] {
+                    cases.push(vec![Slot { name: "P0".into(), ty: t.clone(), pos: a }, Slot { name: "P0".into(), ty: o.clone(), pos: b }]);
+                }
+            }
+        }
+        rep.set("same_name_two_types_programs", json!(cases.len()));
+        par_for(&cases, rep, 8, |_, slots| {
+            let (prog, _) = build_program(slots);
+            let text = prog.render();
+            rep.state();
+            rep.transition(1);
+            rep.eval(1);
+            rep.trace(1);
+            rep.nontrivial(1);
+            match drive::guard(|| simfony::TemplateProgram::new(text.as_str()).map(|_| ())) {
+                Ok(Err(_)) => rep.class("two-types-rejected"),
+                Ok(Ok(())) => rep.violation("C12:same-name-two-types-accepted", format!("param::P0 used at {} and at {} (equal layout, different types) is accepted", slots[0].ty.render(), slots[1].ty.render()), json!({"kind": "compile", "program": text, "expect": "reject", "observed": "accept"})),
+                Err(p) => rep.violation(format!("C12:panic:{}", drive::panic_site(&p)), format!("template with one name at two types panicked: {p}"), json!({"kind": "compile", "program": text, "expect": "reject", "observed": "panic"})),
+            }
+        });
+    }
     rep.finish(
         "state = (program, argument map); non-trivial = maps in which some argument is mistyped with a same-layout value or missing",
         &["literal substitution is done on the harness AST with the harness's own value writer", "equivalence: equal CMR, otherwise equal verdicts on the witness alphabet"],
